@@ -31,14 +31,14 @@ DECIDING = [
     "Circuit.__add__", "get_wavefunction", "stepwise-final", "concat-composes", "split-circuit",
     "partial-native-sim",
 ]
-BUDGET = {"quick": (4, 25, 500), "thorough": (16, 200, 100000)}
+BUDGET = {"quick": (4, 25, 110), "thorough": (16, 200, 100000)}
 CASE_TIMEOUT = {"quick": 15, "thorough": 40}
 K5 = "K5-mixed-symbolic-numeric-matmul"
 TOL = 1e-9
 
 
 def classes(tier):
-    return ["numeric", "symbolic", "concat", "sim_bundled", "sim_partial", "split"]
+    return ["numeric", "symbolic", "concat", "sim_bundled", "sim_partial", "split", "history", "wide"]
 
 
 # ----------------------------------------------------------------------------- helpers
@@ -194,7 +194,7 @@ def _post_apply(mon, call):
         else:
             mon.ok(name)
         return
-    if not _valid_gate_op(op, n) or n > 8:
+    if not _valid_gate_op(op, n) or n > 10:
         mon.out_of_domain(name)
         return
     if call.exc is not None:
@@ -318,7 +318,7 @@ def _post_get_wavefunction(mon, call):
     except Exception:
         mon.out_of_domain(name)
         return
-    if n > 8 or not isinstance(n, (int, np.integer)):
+    if n > 10 or not isinstance(n, (int, np.integer)):
         mon.out_of_domain(name)
         return
     for op in ops:
@@ -365,19 +365,19 @@ def install(mon, reach):
     from orquestra.quantum.circuits import _wavefunction_operations as WO
     from orquestra.quantum.runners import symbolic_simulator as SS
 
-    reach.watch(UT._lift_matrix, "_lift_matrix")
-    reach.watch(UT._permutation_matrix, "_permutation_matrix")
-    reach.watch(UT._lift_matrix_numpy, "_lift_matrix_numpy")
-    reach.watch(UT._lift_matrix_sympy, "_lift_matrix_sympy")
+    reach.watch(getattr(UT, "_lift_matrix", None), "_lift_matrix")
+    reach.watch(getattr(UT, "_permutation_matrix", None), "_permutation_matrix")
+    reach.watch(getattr(UT, "_lift_matrix_numpy", None), "_lift_matrix_numpy")
+    reach.watch(getattr(UT, "_lift_matrix_sympy", None), "_lift_matrix_sympy")
     reach.watch(C.Circuit.to_unitary, "Circuit.to_unitary")
     reach.watch(G.GateOperation.lifted_matrix, "GateOperation.lifted_matrix")
     reach.watch(G.GateOperation.apply, "GateOperation.apply")
-    reach.watch(C._append_operation, "_append_operation")
-    reach.watch(C._append_circuit, "_append_circuit")
+    reach.watch(getattr(C, "_append_operation", None), "_append_operation")
+    reach.watch(getattr(C, "_append_circuit", None), "_append_circuit")
     reach.watch(C.split_circuit, "split_circuit")
     reach.watch(WO.MultiPhaseOperation.apply, "MultiPhaseOperation.apply")
     reach.watch(WS.BaseWavefunctionSimulator.get_wavefunction, "BaseWavefunctionSimulator.get_wavefunction")
-    reach.watch(SS.SymbolicSimulator._get_wavefunction_from_native_circuit, "SymbolicSimulator._native")
+    reach.watch(getattr(SS.SymbolicSimulator, "_get_wavefunction_from_native_circuit", None), "SymbolicSimulator._native")
 
     mon.hook_method(C.Circuit, "to_unitary", post=_post_to_unitary)
     mon.hook_method(G.GateOperation, "lifted_matrix", post=_post_lifted)
@@ -385,7 +385,7 @@ def install(mon, reach):
     mon.hook_method(WO.MultiPhaseOperation, "apply", post=_post_multiphase)
     mon.hook_method(C.Circuit, "__add__", post=_post_add)
     mon.hook_method(WS.BaseWavefunctionSimulator, "get_wavefunction", post=_post_get_wavefunction,
-                    name="get_wavefunction")
+                    name="get_wavefunction", overrides=True)
 
 
 # ----------------------------------------------------------------------------- harness simulator
@@ -572,6 +572,80 @@ def run_case(ctx):
         ctx.check("partial-native-sim", ok,
                   lambda: f"native back end received {log} for flags {flags} on width {c.n_qubits}")
         ctx.mon.note(f"segments:{min(len(segments), 6)}")
+        return
+    if cls == "history":
+        # several related circuits through the SAME simulator objects and the same process: sibling gates (equal
+        # name / parameters, different innermost gate or wrapper), the same operations on a wider register, the
+        # same circuit from another initial state, same-named custom gates with different matrices, phase
+        # operations first.  Every call is judged by the hooks; nothing here is asserted by the driver.
+        from ..gen import siblings as SB
+
+        n = rng.choice([2, 3, 3, 4])
+        params = [GC.rand_angle(rng), GC.rand_angle(rng)][: rng.randint(1, 2)]
+        name = "Cust" + str(rng.randint(0, 99))
+        defs = [GC.numeric_custom_def(rng, nprng, 1, name) for _ in range(rng.choice([0, 2]))]
+        sim = SymbolicSimulator()
+        pname, pred = _predicates(rng)
+        log = []
+        psim = make_partial_sim(pred, log)
+        circuits = []
+        for k in range(rng.randint(3, 5)):
+            ops = SB.sibling_ops(rng, n, params, rng.randint(2, 5), custom_defs=defs[k % 2: k % 2 + 1] if defs else None)
+            circuits.append(Circuit(ops, n_qubits=n))
+        base = circuits[0]
+        circuits.append(Circuit(base.operations, n_qubits=n + 1))  # same operations, wider register
+        circuits.append(Circuit(base.operations, n_qubits=n))  # equal to the first, another object
+        circuits.append(_with_phases(rng, base, 0.5)[0])
+        rng.shuffle(circuits)
+        circuits.append(base)
+        ctx.describe(f"history native={pname} n={n} params={params} " + " | ".join(repr(c)[:120] for c in circuits[:4]), True)
+        for c in circuits:
+            gate_only = all(_is_gate_op(op) for op in c.operations)
+            if gate_only and rng.random() < 0.7:
+                try:
+                    c.to_unitary()
+                except Exception:
+                    pass
+            for s_ in (sim, psim):
+                s_.get_wavefunction(c)  # from the default state ...
+            if rng.random() < 0.5:  # ... and from a caller-supplied one
+                init = L.random_state(nprng, 2**c.n_qubits)
+                for s_ in (sim, psim):
+                    s_.get_wavefunction(c, init)
+            if rng.random() < 0.5:
+                v = L.random_state(nprng, 2**c.n_qubits, normalised=False)
+                for op in c.operations:
+                    v = op.apply(v)
+        return
+    if cls == "wide":
+        # registers of 9 and 10 qubits (beyond a byte of basis-index bits): few operations, step-wise application
+        # and the bundled simulator; the whole-circuit matrix is not built
+        n = rng.choice([9, 9, 10])
+        ops = []
+        descs = []
+        for _ in range(rng.randint(1, 3)):
+            g, d = GC.rand_gate(rng, nprng, 2, wrap=0.2, custom=0.1, allow_u3=False)
+            qs = GC.rand_qubits(rng, g.num_qubits, n)
+            if rng.random() < 0.6:  # make sure the extreme positions occur
+                qs = list(qs)
+                qs[0] = rng.choice([0, n - 1, 8, 1])
+                if len(set(qs)) < len(qs):
+                    qs = GC.rand_qubits(rng, g.num_qubits, n)
+            ops.append(g(*qs))
+            descs.append(f"{d}@{','.join(map(str, qs))}")
+        c = Circuit(ops, n_qubits=n)
+        ctx.describe(f"wide n={n} [" + "; ".join(descs) + "]", True)
+        v = L.random_state(nprng, 2**n, normalised=False)
+        w = v
+        for op in c.operations:
+            w = op.apply(w)
+        ref = v
+        for op in c.operations:
+            ref = L.apply(GC.gate_np(op.gate), tuple(op.qubit_indices), n, ref)
+        ctx.check("stepwise-final", L.maxdiff(np.asarray(w, dtype=complex), ref) <= TOL * max(1.0, float(np.abs(ref).max())),
+                  lambda: f"step-wise apply of {c!r} on {n} qubits differs from the reference")
+        init = L.random_state(nprng, 2**n)
+        SymbolicSimulator().get_wavefunction(c, init)
         return
     if cls == "split":
         n = rng.choice([1, 2, 3, 4, 5])
